@@ -181,6 +181,24 @@ func loadEngine(repo string, goarch string) (*Engine, error) {
 
 func (e *Engine) contractOf(fn *ssa.Function) *FuncInfo { return e.byFn[fn] }
 
+func (e *Engine) isOpaqueSpec(fn *ssa.Function) bool {
+	if fn.Pkg == nil {
+		return false
+	}
+	for k, sp := range e.spkgs {
+		if sp == fn.Pkg {
+			if cf := e.cfiles[k]; cf != nil {
+				for _, s := range cf.Specs {
+					if s.Opaque && s.Name == fn.Name() {
+						return true
+					}
+				}
+			}
+		}
+	}
+	return false
+}
+
 func (e *Engine) gcFunc(pkgKey, name string) *ssa.Function {
 	sp := e.spkgs[pkgKey]
 	if sp == nil {
@@ -387,6 +405,17 @@ func (e *Engine) verifyFunc(key string) (res *FuncResult) {
 	if _, nf := fi.C.Attrs["noframe"]; nf {
 		vc.rootModsAll = true
 	}
+	vc.revealed = map[string]bool{}
+	for _, r := range strings.Split(fi.C.Attrs["reveal"], ",") {
+		if r = strings.TrimSpace(r); r != "" {
+			vc.revealed[r] = true
+		}
+	}
+	for _, u := range strings.Split(fi.C.Attrs["uses"], ",") {
+		if u = strings.TrimSpace(u); u != "" {
+			vc.useLemma(u)
+		}
+	}
 	fr0 := &Frame{fn: fn, args: args, bind: bind, fi: fi}
 	cargs := vc.clauseArgsFrame(fr0)
 	for _, rq := range fi.C.Requires {
@@ -453,4 +482,113 @@ func (vc *VC) script(o *Obl, withModel bool) string {
 		b.WriteString("))\n")
 	}
 	return b.String()
+}
+
+func (e *Engine) findLemma(name string) *Lemma {
+	for _, cf := range e.cfiles {
+		for _, l := range cf.Lemmas {
+			if l.Name == name {
+				return l
+			}
+		}
+	}
+	return nil
+}
+
+// useLemma assumes a (separately proved) lemma as a quantified fact.
+func (vc *VC) useLemma(name string) {
+	l := vc.eng.findLemma(name)
+	if l == nil {
+		vc.fail("unknown lemma %q", name)
+	}
+	fn := vc.eng.gcFunc(l.Pkg, l.GoName)
+	if fn == nil {
+		vc.fail("lemma %s has no generated function", name)
+	}
+	var binders, vars []string
+	var args []SV
+	for _, p := range fn.Params {
+		v := SV{}
+		for _, li := range vc.eng.layoutOf(p.Type()).L {
+			vc.n++
+			nm := fmt.Sprintf("l!%d", vc.n)
+			binders = append(binders, "("+nm+" "+li.Sort+")")
+			vars = append(vars, nm)
+			v.L = append(v.L, nm)
+		}
+		args = append(args, v)
+	}
+	rec := &heapRec{}
+	savedSt, savedRec := vc.st, vc.rec
+	vc.st = &State{Cond: "true", Heap: map[string]string{}, Alloc: "alloc0", Locks: map[string]int{}, Ghost: map[string]string{}}
+	vc.rec = rec
+	vc.pure++
+	vc.inline++
+	vc.binder++
+	body := vc.execFunc(fn, args, nil, nil, false, nil)
+	vc.binder--
+	vc.pure--
+	vc.inline--
+	vc.st, vc.rec = savedSt, savedRec
+	if len(rec.names) > 0 {
+		vc.fail("lemma %s reads the heap (%v); only value-level lemmas can be used", name, rec.names)
+	}
+	if len(binders) == 0 {
+		vc.decls = append(vc.decls, "(assert "+body[0].L[0]+")")
+	} else {
+		vc.decls = append(vc.decls, "(assert "+vc.mkQuant("forall", binders, vars, body[0].L[0])+")")
+	}
+	vc.noteAssumption("uses lemma " + name + " (proved as its own obligation)")
+}
+
+// verifyLemma proves a lemma: a closed formula over specification functions.
+func (e *Engine) verifyLemma(l *Lemma) (res *FuncResult) {
+	fn := e.gcFunc(l.Pkg, l.GoName)
+	res = &FuncResult{Key: l.Pkg + ":lemma:" + l.Name, Fn: "lemma " + l.Name}
+	vc := &VC{eng: e, root: fn, heapSort: map[string]string{}, declared: map[string]bool{}, strLits: map[string]string{},
+		oblNames: map[string]int{}, uf: map[string]bool{}, revealed: map[string]bool{}}
+	res.VC = vc
+	defer func() {
+		if r := recover(); r != nil {
+			if ve, ok := r.(vcError); ok {
+				res.Err = ve.msg
+				res.Obls = vc.obls
+				return
+			}
+			panic(r)
+		}
+	}()
+	if fn == nil {
+		vc.fail("lemma %s has no generated function", l.Name)
+	}
+	for _, r := range l.Reveal {
+		vc.revealed[r] = true
+	}
+	vc.decls = append(vc.decls, "(declare-const alloc0 Int)", "(assert (>= alloc0 0))")
+	vc.entryAlloc = "alloc0"
+	vc.st = &State{Cond: "true", Heap: map[string]string{}, Alloc: "alloc0", Locks: map[string]int{}, Ghost: map[string]string{}}
+	vc.entry = vc.st.clone()
+	for _, u := range l.Uses {
+		vc.useLemma(u)
+	}
+	var args []SV
+	for _, p := range fn.Params {
+		v := SV{}
+		for _, li := range e.layoutOf(p.Type()).L {
+			n := quoteSym("in_" + p.Name() + li.Path)
+			vc.decls = append(vc.decls, fmt.Sprintf("(declare-const %s %s)", n, li.Sort))
+			vc.inputs = append(vc.inputs, inputVar{Name: n, Sort: li.Sort, Desc: p.Name() + li.Path})
+			v.L = append(v.L, n)
+		}
+		vc.typeFacts(p.Type(), v)
+		args = append(args, v)
+	}
+	g := vc.evalClause(l.GoName, l.Pkg, args, vc.st, vc.entry)
+	o := vc.oblige("lemma", l.Tags, g)
+	if o != nil {
+		o.Name = "lemma " + l.Pkg + ":" + l.Name
+	}
+	res.Obls = vc.obls
+	res.Assumptions = vc.assumptions
+	return res
 }
